@@ -156,7 +156,7 @@ theorem solveStep_scale {c eps : ℝ} (hc : 0 < c) (heps : 0 ≤ eps) (O : Oracl
     simp only [Option.map_some] at h1 h2 ⊢
     have e1 : ¬ m < eps := not_lt.mpr h1
     have e2 : ¬ c * m < eps := not_lt.mpr h2
-    simp only [e1, e2, if_false, scaleIt, withL_L, withL_withL]
+    simp only [Xrfmv.Gen.Bandwidth.adapted, Xrfmv.Gen.Bandwidth.guardMult, e1, e2, if_false, scaleIt, withL_L, withL_withL]
     have hL' : 0 ≤ (K0.withL (K0.L * m)).L := by
       rw [withL_L]; exact mul_nonneg hL (le_trans heps h1)
     have hmat := matrix_scale hc (K0.withL (K0.L * m)) (paramOK_withL _ hK) hL' T X X
@@ -205,7 +205,7 @@ theorem iterate_L_nonneg {eps : ℝ} (heps : 0 ≤ eps) (O : Oracles ℝ) (K0 : 
       simp only [hmed, Option.map_some, Option.some.injEq] at hs
       subst hs
       simp only at hm
-      simp only [withL_L, not_lt.mpr hm, if_false]
+      simp only [Xrfmv.Gen.Bandwidth.adapted, Xrfmv.Gen.Bandwidth.guardMult, withL_L, not_lt.mpr hm, if_false]
       exact ⟨mul_nonneg hL (le_trans heps hm), _, rfl⟩
   cases i with
   | zero => exact key _ h
